@@ -4,6 +4,7 @@
 # against it: any VIOLATION line is a false alarm to be investigated.
 cd "$(dirname "$0")/.."
 export VERIF_REPO=${VP_RUN_REPO:?needs vp run --with-repo}
+[ -f $VERIF_REPO/Cargo.lock ] || cp /repo/Cargo.lock $VERIF_REPO/Cargo.lock   # untracked in /repo, so not in the snapshot
 PATCH=$1; shift
 PROPS=${@:-C01 C02 C03 C04 C05 C06 C07 C08 C09 C10 C11 C12 C13 C14 C15 C16 C17 C18 C19 C20}
 (cd $VERIF_REPO && patch -p1 -s < $PATCH) || { echo "PATCH-DOES-NOT-APPLY"; exit 2; }
